@@ -34,6 +34,7 @@ S["C09"] = dict(title="Emitted packets decode to the request; invalid arguments 
     H("verifH_C09_subscribe", "L09.c/e (UN)SUBSCRIBE via the request methods, denial leaves no trace", T({"maxfilter":2}), T({"maxfilter":3}, time_sec=1500), ("denied","encoded","canceled")),
     H("verifH_C09_nofilters", "L09.c no filters"),
     H("verifH_C09_requestsizes", "L09.c SUBSCRIBE/UNSUBSCRIBE remaining length 126..129 and 16382..16385 (concrete long filter)", reach=("encoded","canceled")),
+    H("verifH_C09_connectsizes", "L09.d CONNECT with client identifier, user name, password, will topic and will message of 1/255/256/300 bytes, each length chosen independently: every two-byte length prefix and the remaining length vs the reference"  , reach=("encoded",)),
     H("verifH_C09_connect", "L09.d Config.valid + CONNECT bytes vs reference", T({"maxcid":1,"maxuser":1,"maxwtopic":1}), T({"maxcid":2,"maxuser":2,"maxwtopic":2}, time_sec=1500), ("encoded","invalid")),
   ],
   assumptions=["reference encoder/UTF-8 DFA in harness/zz_verif_ref.go is the oracle (written from OASIS MQTT 3.1.1 and RFC 3629)",
